@@ -11,7 +11,7 @@ EXPLANATION = (
     "(SpillManager, AsyncSpillManager, ExternalSort, PartitionedState) has a Drop impl that reaches file removal; "
     "(R2) the spill codec's writer and reader agree (same rule as C16-R4). (R3) the comparator that sorts spilled runs and the one that merges them (found by use) treat direction and NULL placement alike. "
     "(R4) an element pulled from an iterator an operator keeps across calls is used before any return; (R5) what an intermediate push operator collected is forwarded before its stop request is propagated. "
-    "(R7) the spilling sort's key conversion reads every field of the operator's sort keys; (R8) morsel generation walks 0..total in steps of the morsel size with each end capped at total, and a split builds [start,p) and [p,end) from the same p. (R6) a partial-result type's merge(self, other) folds in every field that accumulation updates, from the same field of the other side, with the same arithmetic / comparison helper. "
+    "(R7) the spilling sort's key conversion reads every field of the operator's sort keys; (R9) the parallel chunk sources compute their ranges and read their chunks with row counts of one kind (visible rows); (R8) morsel generation walks 0..total in steps of the morsel size with each end capped at total, and a split builds [start,p) and [p,end) from the same p. (R6) a partial-result type's merge(self, other) folds in every field that accumulation updates, from the same field of the other side, with the same arithmetic / comparison helper. "
     "Equality of results across strategies, "
     "worker counts or memory budgets is not decided.")
 ASSUMPTIONS = ["std::fs::remove_file / tokio remove_file are the removal primitives"]
@@ -168,6 +168,8 @@ def run(ctx):
 
     # ---- R8 morsels tile the input
     morsels_tile_the_input(ctx, P, "R8")
+    # ---- R9 the parallel chunk sources count rows in one coordinate system
+    chunk_source_one_coordinate_system(ctx, P, "R9")
 
     # ---- R6 merging partial results covers what accumulation updates
     merge_covers_accumulation(ctx, P, "R6")
@@ -503,3 +505,28 @@ def morsels_tile_the_input(ctx, P, rule):
         ctx.ob(rule, "generate_morsels#end-is-start-plus-size-capped", ok,
                what="a generated morsel does not span [start, min(start + morsel_size, total_rows)): neighbouring morsels overlap or leave a gap",
                where=gm.loc(t["line"]))
+
+
+def chunk_source_one_coordinate_system(ctx, P, rule):
+    """ParallelChunkSource computes the morsel ranges from per-chunk row counts; PartitionedChunkSource walks those ranges
+    with chunk.len() and chunk.slice(), which count *visible* rows (the selection vector applied). Both sides must count the
+    same thing: if the ranges are computed from physical row counts (total_row_count) while the reader measures visible
+    rows, chunks that carry a selection vector are cut short and a parallel run returns fewer rows than a sequential one."""
+    VIS, PHYS = {"len", "row_count"}, {"total_row_count"}
+    uses = []
+    for f in P.fns.values():
+        if "parallel::source" not in f.id or "::tests::" in f.id:
+            continue
+        for bi, t in f.calls():
+            c = callee_name(t)
+            if "chunk::DataChunk::" in c and c.split("::")[-1] in VIS | PHYS:
+                uses.append((f, t["line"], c.split("::")[-1]))
+            for a in t["args"]:
+                if a[0] == "fn" and "chunk::DataChunk::" in str(a[1]) and str(a[1]).split("::")[-1] in VIS | PHYS:
+                    uses.append((f, t["line"], str(a[1]).split("::")[-1]))
+    ctx.floor(rule, len(uses), 2, "row-count uses in the parallel chunk sources")
+    phys = [u for u in uses if u[2] in PHYS]
+    ctx.ob(rule, "parallel::source#visible-row-counts", not phys or len(phys) == len(uses),
+           what="the parallel chunk sources mix visible row counts (len / row_count, which slice() uses) with physical ones (%s in %s): "
+                "morsel ranges and the reader disagree on chunks that carry a selection vector, and rows are lost"
+                % (phys[0][2] if phys else "", short_id(phys[0][0].id) if phys else ""), where=(phys[0][0].loc(phys[0][1]) if phys else ""))
